@@ -76,39 +76,39 @@ PackCodes(codes) ==
              IN Pk(i + 1, o[1], o[2], o[3])
   IN Pk(1, <<>>, 0, 0)
 
-(* ---- Impl: the writer.  State: dict (function from <<prefix code, byte>>   *)
-(* to code, as a set of triples would be slow: a sequence of pairs indexed by *)
-(* code - 258), hi, saved (pending code or -1 encoded as 4096), codes emitted.*)
-(* WidthBug = 0 in the real code; the negative control shifts the width       *)
-(* switch of the writer by one code.                                          *)
+(* ---- Impl: the writer (internal/filter/lzw/writer.go).  State:            *)
+(*   dict   the table, a function from 256 * prefix code + byte to code (the  *)
+(*          hash table of the code, abstracted);                              *)
+(*   hi     the last code assigned (257 after a clear);                       *)
+(*   saved  the code accumulated so far (NoCode before the first byte);       *)
+(*   out    the codes emitted, each with the code length in force.            *)
+(* Emitting a code is followed by incHi: hi grows, the code length follows    *)
+(* (WidthFor), and when hi + early reaches 4095 a clear code is sent and the  *)
+(* table is reset.  WidthBug = 0 in the real code; the negative control       *)
+(* shifts the writer's switch of the code length by one code.                 *)
 NoCode == 4096
-Find(dict, code, b) ==    \* the code of <<code, b>> in the table, or NoCode
-  LET RECURSIVE F(_) F(k) == IF k > Len(dict) THEN NoCode
-                             ELSE IF dict[k] = <<code, b>> THEN 257 + k ELSE F(k + 1)
-  IN F(1)
-ImplSt0(early) == [dict |-> <<>>, hi |-> 257, saved |-> NoCode, out |-> << <<Clear, 9>> >>]
-\* emit code c with the current width, then incHi: returns the new state
-ImplEmit(st, c, early, bug) ==
-  LET w == WidthFor(st.hi + bug, early)
-      hi2 == st.hi + 1
-  IN IF hi2 + early = 4095                       \* out of codes: clear, reset
-     THEN [st EXCEPT !.out = @ \o << <<c, w>>, <<Clear, WidthFor(hi2 + bug, early)>> >>, !.hi = 257, !.dict = <<>>]
-     ELSE [st EXCEPT !.out = Append(@, <<c, w>>), !.hi = hi2]
-ImplWriteByte(st, b, early, bug) ==
-  IF st.saved = NoCode THEN [st EXCEPT !.saved = b]
-  ELSE LET f == Find(st.dict, st.saved, b) IN
-    IF f # NoCode THEN [st EXCEPT !.saved = f]
-    ELSE LET st2 == ImplEmit(st, st.saved, early, bug) IN
-      IF st2.hi = 257                                          \* table was reset: no entry
-      THEN [st2 EXCEPT !.saved = b]
-      ELSE [st2 EXCEPT !.saved = b, !.dict = Append(@, <<st.saved, b>>)]
-ImplClose(st, early, bug) ==
-  LET st2 == IF st.saved # NoCode THEN ImplEmit(st, st.saved, early, bug) ELSE st
-  IN Append(st2.out, <<Eod, WidthFor(st2.hi + bug, early)>>)
-RECURSIVE ImplFeed(_, _, _, _, _)
-ImplFeed(st, xs, i, early, bug) ==
-  IF i > Len(xs) THEN st ELSE ImplFeed(ImplWriteByte(st, xs[i], early, bug), xs, i + 1, early, bug)
-ImplCodes(xs, early, bug) == ImplClose(ImplFeed(ImplSt0(early), xs, 1, early, bug), early, bug)
+ImplSt0 == [dict |-> <<>>, hi |-> 257, saved |-> NoCode, out |-> << <<Clear, 9>> >>]
+\* the codes written when code c is emitted in a state with last code hi, and
+\* whether the table was reset
+EmitCodes(c, hi, early, bug) ==
+  IF hi + 1 + early = 4095 THEN << <<c, WidthFor(hi + bug, early)>>, <<Clear, WidthFor(hi + 1 + bug, early)>> >>
+  ELSE << <<c, WidthFor(hi + bug, early)>> >>
+Resets(hi, early) == hi + 1 + early = 4095
+RECURSIVE ImplRun(_, _, _, _, _, _, _, _)
+ImplRun(xs, i, dict, hi, saved, out, early, bug) ==
+  IF i > Len(xs)
+  THEN \* Close: the pending code, incHi, EOD with the code length then in force
+       IF saved = NoCode THEN Append(out, <<Eod, WidthFor(hi + bug, early)>>)
+       ELSE out \o EmitCodes(saved, hi, early, bug)
+                \o << <<Eod, WidthFor((IF Resets(hi, early) THEN 257 ELSE hi + 1) + bug, early)>> >>
+  ELSE LET b == xs[i] IN
+    IF saved = NoCode THEN ImplRun(xs, i + 1, dict, hi, b, out, early, bug)       \* first byte: a literal
+    ELSE LET key == saved * 256 + b IN
+      IF key \in DOMAIN dict THEN ImplRun(xs, i + 1, dict, hi, dict[key], out, early, bug)  \* table hit: go on
+      ELSE IF Resets(hi, early)                                                 \* out of codes: no new entry
+        THEN ImplRun(xs, i + 1, <<>>, 257, b, out \o EmitCodes(saved, hi, early, bug), early, bug)
+        ELSE ImplRun(xs, i + 1, dict @@ (key :> hi + 1), hi + 1, b, out \o EmitCodes(saved, hi, early, bug), early, bug)
+ImplCodes(xs, early, bug) == ImplRun(xs, 1, ImplSt0.dict, ImplSt0.hi, ImplSt0.saved, ImplSt0.out, early, bug)
 ImplEncode(xs, early) == PackCodes(ImplCodes(xs, early, 0))
 
 (* ---- another legal encoder: literals only, a clear code every n codes (so  *)
